@@ -92,15 +92,15 @@ type c11In struct {
 var errC11Closed = errors.New("use of closed network connection (script ended)")
 
 type c11ME struct {
-	mu      sync.Mutex
-	script  []c11In
-	pos     int
-	sent    []message
-	sending bool
-	overlap bool
-	preempt bool
-	preemptRead bool // a scheduling decision before every frame is read
-	blockAtEnd chan struct{} // if set, NextMessage blocks on it after the script (until the connection is closed)
+	mu          sync.Mutex
+	script      []c11In
+	pos         int
+	sent        []message
+	sending     bool
+	overlap     bool
+	preempt     bool
+	preemptRead bool          // a scheduling decision before every frame is read
+	blockAtEnd  chan struct{} // if set, NextMessage blocks on it after the script (until the connection is closed)
 }
 
 func (me *c11ME) NextMessage() (message, error) {
@@ -178,16 +178,16 @@ func c11WellFormed(fr []messageType) bool {
 // ---- executor fake
 
 type c11Exec struct {
-	mode      int // 0 accept, 1 reject with a protocol-kind error, 2 reject with a user-kind error
-	payloads  int
-	panicAt   int // -1 never
-	subErr    bool
+	mode            int // 0 accept, 1 reject with a protocol-kind error, 2 reject with a user-kind error
+	payloads        int
+	panicAt         int // -1 never
+	subErr          bool
 	panicInDispatch bool // user code that runs inside DispatchOperation itself (an operation interceptor, a subscription directive) panics
-	longLived bool // after the payloads, wait for the operation context to be cancelled
-	mu        sync.Mutex
-	started   int
-	cancelled int
-	finished  int
+	longLived       bool // after the payloads, wait for the operation context to be cancelled
+	mu              sync.Mutex
+	started         int
+	cancelled       int
+	finished        int
 }
 
 func (e *c11Exec) count(p *int) {
@@ -248,10 +248,10 @@ func (e *c11Exec) DispatchError(ctx context.Context, list gqlerror.List) *graphq
 
 type c11Conf struct {
 	onClose func()
-	mu     sync.Mutex
-	closes []int
-	inits  int
-	errs   int
+	mu      sync.Mutex
+	closes  []int
+	inits   int
+	errs    int
 }
 
 func (cf *c11Conf) nCloses() int {
